@@ -754,6 +754,11 @@ func (e *Env) RRestoreIdent() {
 		if !cmpDot {
 			return true
 		}
+		for _, cj := range splitTopAnd(types.ExprString(is.Cond)) {
+			if t := strings.TrimSpace(cj); t == "false" || t == "true" {
+				return true // a constant operand: the comparison decides nothing
+			}
+		}
 		if neg {
 			dotActs = true // `if name != "." …` guards the qualified form
 			return true
